@@ -505,13 +505,43 @@ def static_init(src, var="hwaccel"):
     return m.group(1)
 
 
+# CPUSUPPORT_VALIDATE as the selection interpreter (Crypto/AesSelect.v, known_validate_macro) knows it
+KNOWN_VALIDATE = ('do{if((cpusupport_checks)){if((check)==0){(hwvar)=(success_value);return;}else{'
+                  'warn0("Disabling"#success_value"duetofailedself-test");}}}while(0)')
+
+
+def macro_normal_form(t):
+    """token-level normal form of a (whitespace-free) macro body: adjacent string literals joined,
+    redundant parentheses around a parenthesised identifier removed"""
+    prev = None
+    while prev != t:
+        prev = t
+        t = t.replace('""', '')
+        t = re.sub(r"\(\((\w+)\)\)", r"(\1)", t)
+        t = re.sub(r"\bif\((\w+)\)\{", r"if((\1)){", t)     # if (x) {  ==  if ((x)) {
+        t = re.sub(r"\(\((\w+)\)\)", r"(\1)", t)
+    return t
+
+
+def validate_macro_text(cs):
+    """Read-or-refuse: the interpreter can only run the macro it knows.  A body that is the known one
+    up to string-literal splitting and redundant parentheses IS the known one and is emitted in the
+    known spelling; any other body is not understood here (NotFound: pinned data + correspondence)."""
+    t = squeeze(macro_body(cs, "CPUSUPPORT_VALIDATE"))
+    if t == KNOWN_VALIDATE:
+        return t
+    if macro_normal_form(t) == macro_normal_form(KNOWN_VALIDATE):
+        return KNOWN_VALIDATE
+    raise NotFound("CPUSUPPORT_VALIDATE has a body this module does not read: " + t[:120])
+
+
 def selection(repo):
     cs = strip_comments(read(repo, "cpusupport/cpusupport.h"))
     aes0 = strip_comments(read(repo, "crypto/crypto_aes.c"))
     ctr0 = strip_comments(read(repo, "crypto/crypto_aesctr.c"))
     out = HEADER
     out += "(* cpusupport.h: #define CPUSUPPORT_VALIDATE(hwvar, success_value, cpusupport_checks, check) *)\n"
-    out += "Definition validate_macro : list N :=\n  %s.\n" % coq_text(squeeze(macro_body(cs, "CPUSUPPORT_VALIDATE")))
+    out += "Definition validate_macro : list N :=\n  %s.\n" % coq_text(validate_macro_text(cs))
     for tag, defined in (("ni", {"CPUSUPPORT_X86_AESNI"}), ("none", set())):
         aes, ctr = preprocess(aes0, defined), preprocess(ctr0, defined)
         out += "\n(* ---- build configuration: %s *)\n" % (", ".join(sorted(defined)) or "no CPUSUPPORT_* feature macro")
